@@ -531,8 +531,76 @@ func c08Derived(r *rt.Run) {
 	check("the base paragraph after its derivations were written", &base, baseOrder)
 }
 
+// c08EmptyInSequence: an Encoder (or Marshal of a slice) is given a sequence of
+// paragraphs some of which have no field at all; what is written reads back as
+// exactly the non-empty paragraphs, in order, one each.
+func c08EmptyInSequence(r *rt.Run) {
+	t := r.T
+	n := 3 + t.Draw(3, "c08.eseq.n")
+	var seq []embedPara
+	var want []control.Paragraph
+	for i := 0; i < n; i++ {
+		p := control.Paragraph{Values: map[string]string{}}
+		if i > 0 && i < n-1 && t.Bool(1, 2, "c08.eseq.empty") || t.Bool(1, 8, "c08.eseq.empty-anywhere") {
+			seq = append(seq, embedPara{p})
+			continue
+		}
+		for j, nf := 0, 1+t.Draw(3, "c08.eseq.fields"); j < nf; j++ {
+			p.Set(fmt.Sprintf("Field-%d-%d", i, j), fmt.Sprintf("value %d %d", i, j))
+		}
+		seq = append(seq, embedPara{p})
+		want = append(want, p)
+	}
+	asSlice := t.Bool(1, 3, "c08.eseq.slice")
+	w := simio.NewWriter(r, "sink")
+	var err error
+	task := r.Solo("encoder", func() {
+		if asSlice {
+			err = control.Marshal(w, seq)
+			return
+		}
+		enc, e := control.NewEncoder(w)
+		if e != nil {
+			err = e
+			return
+		}
+		for i := range seq {
+			if err = enc.Encode(&seq[i]); err != nil {
+				return
+			}
+		}
+	})
+	if taskTrouble(r, "C08", "Encoder/sequence-with-empty-paragraphs", task) {
+		return
+	}
+	r.Probe("encoder-sequence-with-paragraphs-that-have-no-field")
+	if err != nil {
+		r.Violate("C08/write-error", "Encoder/sequence-with-empty-paragraphs", "%v", err)
+		return
+	}
+	back, rerr, task := readParas(r, w.Buf)
+	if taskTrouble(r, "C08", "reread", task) {
+		return
+	}
+	if rerr != nil || len(back) != len(want) {
+		r.Violate("C08/paragraph-count", "Encoder/sequence-with-empty-paragraphs", "%d paragraphs were encoded, %d of them with fields; reading back gives %d (err=%v)\nwritten=%q", n, len(want), len(back), rerr, clip(string(w.Buf), 400))
+		return
+	}
+	for i := range want {
+		if fmt.Sprint(back[i].Order) != fmt.Sprint(want[i].Order) {
+			r.Violate("C08/roundtrip-mismatch", "Encoder/sequence-with-empty-paragraphs", "paragraph %d reads back with fields %v, written %v", i, back[i].Order, want[i].Order)
+			return
+		}
+	}
+}
+
 func runC08(r *rt.Run, tier string) {
 	t := r.T
+	if t.Bool(1, 14, "c08.part-emptyseq") {
+		r.Stats["part.empty-in-sequence"]++
+		c08EmptyInSequence(r)
+		return
+	}
 	if t.Bool(1, 10, "c08.part-derived") {
 		r.Stats["part.derived"]++
 		c08Derived(r)
@@ -561,7 +629,7 @@ func runC08(r *rt.Run, tier string) {
 	if docFirst {
 		// documents accepted by the reader: read, then write what was read
 		r.Stats["workload.document-first"]++
-		m, doc, _ := genDoc(t, docGenOpts{MinParas: 1, MaxParas: 3, MaxFields: 4, Comments: true, AllowCRLF: true, AllowLong: true}, r)
+		m, doc, _ := genDoc(t, docGenOpts{MinParas: 1, MaxParas: 3, MaxFields: 4, Comments: true, AllowCRLF: true, AllowLong: true, ExoticBlanks: true}, r)
 		model = m
 		got, err, task := readParas(r, doc)
 		if taskTrouble(r, "C08", "read0", task) {
@@ -820,5 +888,5 @@ func init() {
 		},
 		Assumptions: []string{"values are compared after removing one trailing newline (the statement's equality) and, for values built with the library's leading-newline multi-line marker, the marker", "lines that are exactly '.', blanks around a first line, and field names with ':' or leading '#' are outside the text format and not generated"},
 	})
-	propProbes["C08"] = []string{"several-paragraphs-derived-from-one-base", "paragraph-built-with-Set", "paragraph-built-with-Update", "several-callers-writing-at-the-same-time", "stores-read-back-by-readers-alive-at-the-same-time", "line-longer-than-4096-bytes", "transient-read-fault-while-reading-back", "encode-retried-after-transient-write-error", "encoder-mixes-structs-and-slices", "single-line-with-trailing-newline", "multi-line-with-trailing-newline", "two-empty-lines", "three-empty-lines", "four-empty-lines", "leading-marker", "three-or-more-paragraphs", "three-or-more-cycles"}
+	propProbes["C08"] = []string{"encoder-sequence-with-paragraphs-that-have-no-field", "several-paragraphs-derived-from-one-base", "paragraph-built-with-Set", "paragraph-built-with-Update", "several-callers-writing-at-the-same-time", "stores-read-back-by-readers-alive-at-the-same-time", "line-longer-than-4096-bytes", "transient-read-fault-while-reading-back", "encode-retried-after-transient-write-error", "encoder-mixes-structs-and-slices", "single-line-with-trailing-newline", "multi-line-with-trailing-newline", "two-empty-lines", "three-empty-lines", "four-empty-lines", "leading-marker", "three-or-more-paragraphs", "three-or-more-cycles"}
 }
